@@ -2,11 +2,13 @@ package sdkapi
 
 import (
 	"context"
+	"encoding/json"
 	"fmt"
 	"sort"
 	"strings"
 	"testing"
 	"time"
+	"unicode/utf8"
 
 	hydraidego "github.com/hydraide/hydraide/sdk/go/hydraidego/v3"
 	"github.com/hydraide/hydraide/sdk/go/hydraidego/v3/hydrex"
@@ -19,9 +21,33 @@ import (
 
 // C27 — Hydrex reverse index stays consistent with core data.
 
+// C27Str is a string that survives JSON even when it is not valid UTF-8 (then it is written as {"b64": …}).
+type C27Str string
+
+func (x C27Str) MarshalJSON() ([]byte, error) {
+	if utf8.ValidString(string(x)) {
+		return json.Marshal(string(x))
+	}
+	return json.Marshal(map[string][]byte{"b64": []byte(x)})
+}
+
+func (x *C27Str) UnmarshalJSON(b []byte) error {
+	var s string
+	if json.Unmarshal(b, &s) == nil {
+		*x = C27Str(s)
+		return nil
+	}
+	var m map[string][]byte
+	if err := json.Unmarshal(b, &m); err != nil {
+		return err
+	}
+	*x = C27Str(m["b64"])
+	return nil
+}
+
 type C27Item struct {
 	Key int    `json:"key"` // index into Keys
-	Val string `json:"val"`
+	Val C27Str `json:"val"`
 }
 
 type C27Action struct {
@@ -33,9 +59,9 @@ type C27Action struct {
 }
 
 type C27Scenario struct {
-	Indexes []string    `json:"indexes"`
-	Domains []string    `json:"domains"`
-	Keys    []string    `json:"keys"`
+	Indexes []C27Str    `json:"indexes"`
+	Domains []C27Str    `json:"domains"`
+	Keys    []C27Str    `json:"keys"`
 	Actions []C27Action `json:"actions"`
 }
 
@@ -44,29 +70,81 @@ type c27Cfg struct {
 	forceChange   bool // witness: make sure a value change happens
 	noReAdd       bool // open finding: a record deleted, re-inserted and deleted again after a reload resurrects on the next reload
 	forceReAdd    bool // witness of that finding
+	// name classes left out of the generator (open findings) / the only special class used (witnesses, discovery)
+	noClass   map[string]bool
+	onlyClass string
+}
+
+// c27NameClasses: how index names, domains and keys are drawn beyond plain identifiers.
+var c27NameClasses = []string{"unicode", "space-punct", "slash", "special", "dots", "long", "case-variant", "key-is-domain", "empty", "invalid-utf8"}
+
+func c27SpecialName(t *rapid.T, class, label string, pool []C27Str) C27Str {
+	switch class {
+	case "unicode":
+		return C27Str(rapid.StringOfN(rapid.RuneFrom([]rune("éÉßøñ日本語ΩжЖ🙂ǅ")), 1, 8, -1).Draw(t, label))
+	case "space-punct":
+		return C27Str(rapid.StringOfN(rapid.RuneFrom([]rune("ab1 ,;!'\"()[]{}<>|=+&@$^~`\t")), 1, 10, -1).Draw(t, label))
+	case "slash":
+		return C27Str(rapid.SampledFrom([]string{"a/b", "a/c", "a", "a/b/c", "/", "/a", "a/", "http://x.io/p", "http://x.io/q", "x/y"}).Draw(t, label))
+	case "special":
+		return C27Str(rapid.StringOfN(rapid.RuneFrom([]rune("ab\\:*?#%")), 1, 8, -1).Draw(t, label))
+	case "dots":
+		return C27Str(rapid.SampledFrom([]string{".", "..", ".a", "a.", "...", ".hidden.", "a..b"}).Draw(t, label))
+	case "long":
+		return C27Str(rapid.SampledFrom([]string{"L", "M", "長"}).Draw(t, label+"c") + strings.Repeat("x", rapid.SampledFrom([]int{100, 255, 256, 400}).Draw(t, label+"n")))
+	case "case-variant":
+		if len(pool) > 0 {
+			b := string(rapid.SampledFrom(pool).Draw(t, label))
+			if u := strings.ToUpper(b); u != b {
+				return C27Str(u)
+			}
+			return C27Str(strings.ToLower(b))
+		}
+		return "Abc"
+	case "empty":
+		return ""
+	case "invalid-utf8":
+		return C27Str(rapid.SampledFrom([]string{"\xff", "a\xc3", "\xed\xa0\x80", "ok\xfe\xffok"}).Draw(t, label))
+	}
+	return "x"
 }
 
 func genC27(cfg c27Cfg) func(t *rapid.T) C27Scenario {
 	nameGen := rapid.StringMatching(`[a-zA-Z0-9][a-zA-Z0-9_.\-]{0,7}`)
-	distinct := func(t *rapid.T, n int, label string) []string {
-		seen := map[string]bool{}
-		var out []string
+	var classes []string
+	for _, c := range c27NameClasses {
+		if !cfg.noClass[c] && c != "key-is-domain" && (cfg.onlyClass == "" || cfg.onlyClass == c) {
+			classes = append(classes, c)
+		}
+	}
+	distinct := func(t *rapid.T, n int, label string, others []C27Str) []C27Str {
+		seen := map[C27Str]bool{}
+		var out []C27Str
 		for i := 0; len(out) < n && i < 50; i++ {
-			s := nameGen.Draw(t, fmt.Sprintf("%s%d", label, i))
-			if !seen[strings.ToLower(s)] {
-				seen[strings.ToLower(s)] = true
-				out = append(out, s)
+			var x C27Str
+			l := fmt.Sprintf("%s%d", label, i)
+			switch c := rapid.IntRange(0, 9).Draw(t, l+"class"); {
+			case c < 3 && len(classes) > 0:
+				x = c27SpecialName(t, rapid.SampledFrom(classes).Draw(t, l+"which"), l+"s", append(append([]C27Str{}, out...), others...))
+			case c < 5 && label == "key" && len(others) > 0 && !cfg.noClass["key-is-domain"] && (cfg.onlyClass == "" || cfg.onlyClass == "key-is-domain"):
+				x = rapid.SampledFrom(others).Draw(t, l+"dom") // a key whose text is also a domain name
+			default:
+				x = C27Str(nameGen.Draw(t, l))
+			}
+			if !seen[x] {
+				seen[x] = true
+				out = append(out, x)
 			}
 		}
 		return out
 	}
 	return func(t *rapid.T) C27Scenario {
 		var s C27Scenario
-		s.Indexes = distinct(t, rapid.IntRange(1, 2).Draw(t, "nidx"), "idx")
-		s.Domains = distinct(t, rapid.IntRange(1, 4).Draw(t, "ndom"), "dom")
-		s.Keys = distinct(t, rapid.IntRange(1, 6).Draw(t, "nkey"), "key")
+		s.Indexes = distinct(t, rapid.IntRange(1, 2).Draw(t, "nidx"), "idx", nil)
+		s.Domains = distinct(t, rapid.IntRange(1, 4).Draw(t, "ndom"), "dom", nil)
+		s.Keys = distinct(t, rapid.IntRange(1, 6).Draw(t, "nkey"), "key", s.Domains)
 		// model kept while generating, so that the value-change trigger can be excluded / forced by construction
-		core := map[[2]int]map[int]string{}
+		core := map[[2]int]map[int]C27Str{}
 		removed := map[[3]int]bool{} // (index, domain, key) was held once and removed since
 		n := rapid.IntRange(1, 14).Draw(t, "nactions")
 		if cfg.forceReAdd {
@@ -92,14 +170,17 @@ func genC27(cfg c27Cfg) func(t *rapid.T) C27Scenario {
 			case c < 66:
 				a.Kind = "save"
 				cur := core[id]
-				next := map[int]string{}
+				next := map[int]C27Str{}
 				for k := range s.Keys {
 					// keep / add a key with probability 1/2; an empty item set arises naturally
 					if rapid.Bool().Draw(t, fmt.Sprintf("has%d", k)) {
 						if cfg.noReAdd && removed[[3]int{a.Index, a.Domain, k}] {
 							continue
 						}
-						v := rapid.SampledFrom([]string{"", "a", "b", "software", "AI", "é日本"}).Draw(t, fmt.Sprintf("val%d", k))
+						v := C27Str(rapid.SampledFrom([]string{"", "a", "b", "software", "AI", "é日本", "a/b", " ", strings.Repeat("v", 300)}).Draw(t, fmt.Sprintf("val%d", k)))
+						if !cfg.noClass["invalid-utf8"] && (cfg.onlyClass == "" || cfg.onlyClass == "invalid-utf8") && rapid.IntRange(0, 19).Draw(t, fmt.Sprintf("badval%d", k)) == 0 {
+							v = "bad\xff"
+						}
 						if old, ok := cur[k]; ok && cfg.noValueChange {
 							v = old
 						}
@@ -202,8 +283,23 @@ func runC27(s C27Scenario) pbt.Outcome {
 	ctx, cancel := context.WithTimeout(context.Background(), 60*time.Second)
 	defer cancel()
 	idx := make([]string, len(s.Indexes))
+	doms := make([]string, len(s.Domains))
+	keys := make([]string, len(s.Keys))
+	for i, n := range s.Domains {
+		doms[i] = string(n)
+	}
+	for i, n := range s.Keys {
+		keys[i] = string(n)
+	}
 	for i, n := range s.Indexes {
 		idx[i] = fmt.Sprintf("n%dx%s", e.caseNo, n) // index names are a global namespace: make them unique per case
+		if n == "" {
+			// the literally empty index name cannot be made unique: it is used as it is and cleaned before and after the case
+			idx[i] = ""
+			for _, d := range doms {
+				e.hx.Destroy(ctx, "", d)
+			}
+		}
 	}
 	// model
 	core := map[string]map[string]map[string]string{} // index -> domain -> key -> value
@@ -212,7 +308,7 @@ func runC27(s C27Scenario) pbt.Outcome {
 	}
 	defer func() {
 		for _, i := range idx {
-			for _, d := range s.Domains {
+			for _, d := range doms {
 				e.hx.Destroy(ctx, i, d)
 			}
 		}
@@ -228,7 +324,7 @@ func runC27(s C27Scenario) pbt.Outcome {
 					rev[k][d] = true
 				}
 			}
-			for _, d := range s.Domains {
+			for _, d := range doms {
 				got := map[string]string{}
 				dup := false
 				for _, cd := range e.hx.GetCoreData(ctx, i, d) {
@@ -254,7 +350,7 @@ func runC27(s C27Scenario) pbt.Outcome {
 					}
 				}
 			}
-			for _, k := range s.Keys {
+			for _, k := range keys {
 				got := map[string]bool{}
 				for _, id := range e.hx.GetIndexData(ctx, i, k) {
 					got[id.Domain] = true
@@ -275,6 +371,7 @@ func runC27(s C27Scenario) pbt.Outcome {
 		return nil
 	}
 	sharedRemoved, destroyedWithShared, valueChanged, closes := false, false, false, 0
+	emptyKeyIgnored, refusedSaves := false, 0
 	holders := func(i, k string) int {
 		n := 0
 		for _, items := range core[i] {
@@ -285,22 +382,32 @@ func runC27(s C27Scenario) pbt.Outcome {
 		return n
 	}
 	for step, a := range s.Actions {
-		if a.Index >= len(idx) || a.Domain >= len(s.Domains) {
+		if a.Index >= len(idx) || a.Domain >= len(doms) {
 			return pbt.Outcome{Skip: true}
 		}
-		i, d := idx[a.Index], s.Domains[a.Domain]
-		what := fmt.Sprintf("%s %s/%s", a.Kind, i, d)
+		i, d := idx[a.Index], doms[a.Domain]
+		what := fmt.Sprintf("%s %q/%q", a.Kind, i, d)
+		// Hydrex reports no errors; the repaired Save (5037ffc, efbd7ae) has these documented-by-code rules:
+		//  - an empty index name or domain: the call is refused, nothing changes;
+		//  - an item with an empty key is ignored, the other items are stored;
+		//  - when the core write fails (text that is not valid UTF-8 cannot be sent at all) nothing changes.
+		rejected := a.Kind == "save" && (i == "" || d == "" || !utf8.ValidString(i) || !utf8.ValidString(d))
 		switch a.Kind {
 		case "save":
 			items := map[string]*hydrex.CoreData{}
 			next := map[string]string{}
 			for _, it := range a.Items {
-				if it.Key >= len(s.Keys) {
+				if it.Key >= len(keys) {
 					return pbt.Outcome{Skip: true}
 				}
-				k := s.Keys[it.Key]
-				items[k] = &hydrex.CoreData{Key: k, Value: it.Val, CreatedAt: time.Now()}
-				next[k] = it.Val
+				k := keys[it.Key]
+				items[k] = &hydrex.CoreData{Key: k, Value: string(it.Val), CreatedAt: time.Now()}
+				if k == "" {
+					emptyKeyIgnored = true
+					continue
+				}
+				next[k] = string(it.Val)
+				rejected = rejected || !utf8.ValidString(k) || !utf8.ValidString(string(it.Val))
 			}
 			for k, old := range core[i][d] {
 				if nv, ok := next[k]; !ok {
@@ -311,9 +418,14 @@ func runC27(s C27Scenario) pbt.Outcome {
 					valueChanged = true
 				}
 			}
-			what += fmt.Sprintf(" items=%v", next)
+			what += fmt.Sprintf(" items=%q", next)
 			e.hx.Save(ctx, i, d, items)
-			core[i][d] = next
+			if rejected {
+				what += " [must leave the previous state]"
+				refusedSaves++
+			} else {
+				core[i][d] = next
+			}
 		case "destroy":
 			for k := range core[i][d] {
 				if holders(i, k) >= 2 {
@@ -327,11 +439,12 @@ func runC27(s C27Scenario) pbt.Outcome {
 				closes++
 			}
 		case "close-index":
-			if a.Key < len(s.Keys) && e.r.CloseSwamp("hydraideIndex/"+i+"/"+s.Keys[a.Key]) {
+			if a.Key < len(keys) && e.r.CloseSwamp("hydraideIndex/"+i+"/"+keys[a.Key]) {
 				closes++
 			}
 		}
-		if f := check(step, what); f != nil {
+		f := check(step, what)
+		if f != nil {
 			return *f
 		}
 	}
@@ -348,19 +461,41 @@ func runC27(s C27Scenario) pbt.Outcome {
 	if closes > 0 {
 		out.Classes = append(out.Classes, "swamp-closed-between-actions")
 	}
+	if emptyKeyIgnored {
+		out.Classes = append(out.Classes, "empty-key-item-ignored")
+	}
+	if refusedSaves > 0 {
+		out.Classes = append(out.Classes, "save-refused-or-failed-state-unchanged")
+	}
 	return out
 }
 
-const c27Rule = "rapid-generated histories through the Go SDK + bufconn: <= 2 index names (made unique per case), <= 4 domains, <= 6 keys over [a-zA-Z0-9_.-]; " +
+const c27Rule = "rapid-generated histories through the Go SDK + bufconn: <= 2 index names (made unique per case), <= 4 domains, <= 6 keys; names are plain identifiers (70%) or drawn from classes: unicode letters, spaces+punctuation, \\ : * ? # %, leading/trailing dots, 100..400-byte names, case variants of other names, keys equal to a domain name, " +
+	"and (when the corresponding finding is closed) names containing '/', empty names (Save with an empty index name / domain is refused, an item with an empty key is ignored), " +
+	"text that is not valid UTF-8 (the Save must leave the previous state exactly); " +
 	"1..14 actions: Save(index, domain, items) with additions / removals / value changes / empty item sets, Destroy(index, domain), close of the underlying core or index swamp; " +
 	"after EVERY action GetCoreData of every (index, domain) and GetIndexData of every (index, key) are compared with a map model (core) and the reverse index derived from it; " +
 	"non-trivial = a key held by >= 2 domains is removed from one of them, or a domain is destroyed while one of its keys remains elsewhere; distinct = hash of the scenario"
+
+// name classes on which the unchanged tree breaks the statement, and the witness that records each
+var c27ClassWitness = map[string]string{
+	"slash":        "slash-in-name-aliases-swamps",
+	"empty":        "empty-key-or-domain-half-saved",
+	"invalid-utf8": "failed-core-save-leaves-index-entry",
+}
 
 func c27MainCfg(facet string) c27Cfg {
 	var cfg c27Cfg
 	if pbt.Open("C27", "value-change-ignored") {
 		cfg.noValueChange = true
 		pbt.Excluded("C27", facet, "Save with a changed value for a key the domain already holds (open finding)")
+	}
+	cfg.noClass = map[string]bool{}
+	for class, w := range c27ClassWitness {
+		if pbt.Open("C27", w) {
+			cfg.noClass[class] = true
+			pbt.Excluded("C27", facet, "names of class "+class+" (open finding "+w+")")
+		}
 	}
 	if pbt.Open("C27", "entry-resurrects-after-reload") {
 		cfg.noReAdd = true
@@ -394,4 +529,25 @@ func TestC27WitnessResurrect(t *testing.T) {
 		Quick: 20, Thorough: 200,
 		Gen: genC27(c27Cfg{forceReAdd: true}), Run: runC27,
 	}, "entry-resurrects-after-reload", "index-mismatch", "core-mismatch")
+}
+
+func c27ClassWitnessFacet(t *testing.T, class, facet, rule string, shapes ...string) {
+	defer c27Finish()
+	pbt.Witness(t, pbt.Spec[C27Scenario]{
+		ID: "C27", Facet: facet, Rule: rule,
+		Quick: 60, Thorough: 600,
+		Gen: genC27(c27Cfg{onlyClass: class}), Run: runC27,
+	}, c27ClassWitness[class], shapes...)
+}
+
+func TestC27WitnessSlashNames(t *testing.T) {
+	c27ClassWitnessFacet(t, "slash", "witness-slash-names", "main generator whose special names all contain '/' (a/b, a/c, a, a/b/c, /, URLs)", "core-mismatch", "index-mismatch", "value-mismatch")
+}
+
+func TestC27WitnessEmptyNames(t *testing.T) {
+	c27ClassWitnessFacet(t, "empty", "witness-empty-names", "main generator with an empty key, domain or index name among the names", "core-mismatch", "index-mismatch", "value-mismatch")
+}
+
+func TestC27WitnessInvalidUTF8(t *testing.T) {
+	c27ClassWitnessFacet(t, "invalid-utf8", "witness-invalid-utf8", "main generator with names and values that are not valid UTF-8 (the call may fail as a whole, but must not take partial effect)", "partial-effect")
 }
